@@ -80,6 +80,10 @@ class GOceanLoopFuseTrans(LoopFuseTrans):
         :raises TransformationError: if the supplied loops are over \
                                      different grid-point types.
 
+        :raises TransformationError: if the supplied loops expect different \
+                                     grid index offsets or are of different \
+                                     loop types (inner/outer).
+
         :raises TransformationError: if invalid parameters are passed in.
 
         '''
@@ -97,6 +101,20 @@ class GOceanLoopFuseTrans(LoopFuseTrans):
                 f"Error in {self.name} transformation. Cannot "
                 f"fuse loops that are over different grid-point types: "
                 f"{node1.field_space} and {node2.field_space}")
+
+        # The loop bounds depend on the grid index-offset (and on whether
+        # the loop is an inner or an outer one), so both must match too.
+        if node1.index_offset != node2.index_offset:
+            raise TransformationError(
+                f"Error in {self.name} transformation. Cannot "
+                f"fuse loops whose kernels expect different grid index "
+                f"offsets: {node1.index_offset} and {node2.index_offset}")
+
+        if node1.loop_type != node2.loop_type:
+            raise TransformationError(
+                f"Error in {self.name} transformation. Cannot "
+                f"fuse loops of different types: "
+                f"{node1.loop_type} and {node2.loop_type}")
 
 
 # For automatic documentation generation
